@@ -1,8 +1,9 @@
 """C19 -- whatever the parser can return can be rendered in every offered format."""
 import ast
 
-from ..core import AnalysisError, src, qualname_of
+from ..core import AnalysisError, src, qualname_of, closure_walk
 from ..pysym import SymExec, show, subterms, subterms_guarded, all_calls, guards_of
+from .. import logic
 from ..rules_pyx import N, C, A
 from ..pygrammar import combinator_functions, returned_strings
 from .. import symcat as sc
@@ -155,11 +156,26 @@ def r_dispatch(repo, rep, R='R19.2'):
         if o != 'return':
             continue
         for c, pol, _ in st.conds:
-            if pol and c[0] == 'cmp' and c[1] == '==' and c[2] == N(fparam) and c[3][0] == 'const':
-                returning.add(c[3][1])
+            f = logic.formula(c)
+            if not pol:
+                f = logic.neg(f)
+            if f[0] != 'atom':
+                continue
+            if f[1][0] == 'eq' and N(fparam) in f[1][1:]:
+                other = [x for x in f[1][1:] if x != N(fparam)]
+                if other and other[0][0] == 'const':
+                    returning.add(other[0][1])
+            if f[1][0] == 'in' and f[1][1] == N(fparam) and f[1][2][0] in ('tuple', 'list', 'set') and \
+                    all(x[0] == 'const' for x in f[1][2][1]):
+                # a membership test leading to a return dispatches each member -- unless a later equality test on the
+                # same path narrows it (then that test is what is recorded above)
+                if not any(logic.formula(c2)[0] == 'atom' and logic.formula(c2)[1][0] == 'eq' and N(fparam) in logic.formula(c2)[1][1:]
+                           for c2, p2, _ in st.conds if p2):
+                    returning |= {x[1] for x in f[1][2][1]}
     fm = pm.assign('_formatters')
     fkeys = {k.value for k in fm.keys if isinstance(k, ast.Constant)} if isinstance(fm, ast.Dict) else set()
-    uses_table = any(isinstance(n, ast.Subscript) and src(n.value) == '_formatters' and src(n.slice) == fparam for n in ast.walk(ts))
+    uses_table = any(isinstance(n, ast.Subscript) and src(n.value) == '_formatters' and src(n.slice) == fparam for n in closure_walk(ts)) or \
+        any(isinstance(n, ast.Call) and src(n.func) == '_formatters.get' and n.args and src(n.args[0]) == fparam for n in closure_walk(ts))
     ok_formats = returning | (fkeys if uses_table else set())
     for parser, (chs, default, node) in sorted(choices.items()):
         missing = [c for c in chs if c not in ok_formats]
